@@ -284,7 +284,7 @@ func cmpGen(tier string, r *rng, emit func(string)) {
 	for _, v := range sorted {
 		objs[v] = buildWire(v)
 	}
-	sort.SliceStable(sorted, func(i, j int) bool { return object.Cmp(objs[sorted[i]], objs[sorted[j]]) < 0 })
+	sort.SliceStable(sorted, func(i, j int) bool { return safeCmp(objs[sorted[i]], objs[sorted[j]]) == "-1" })
 	for i := 0; i+4 <= len(sorted); i++ {
 		w := sorted[i : i+4]
 		for _, a := range w {
